@@ -58,6 +58,23 @@ def run(tier, replay=None):
     for d, s in names.numeric_schemas(tier):
         todo.append(("num", d, s, "header field is" in d))    # ids beyond the header field type: with the accessor driver
     todo.append(("kinds", "kinds", kinds.kinds_schema(), True))
+    # command-line options that shape the output: --schema-name replaces the package as directory / namespace / top header
+    # name (the package trait keeps the XML's), --inject-include puts an #include at the top of every generated header
+    import copy
+    cli_bases = [kinds.kinds_schema()] + [s for d, s in names.clash_schemas(tier) if not d.startswith("impl-name:")][:(1 if quick else 12)]
+    for bi, base in enumerate(cli_bases):
+        for oi, (nm, inj) in enumerate([("cli_ns%d" % bi, None), (None, "verif_inj.hpp"), ("messages", "sub/verif_inj.hpp"), (base.msgs[0].name, None)]):
+            s = copy.deepcopy(base)
+            s.xml_package = base.package
+            extra = []
+            if nm:
+                s.package = nm
+                extra += ["--schema-name", nm]
+            if inj:
+                extra += ["--inject-include", inj]
+                s.inject = inj
+            s.sbeppc_extra = extra
+            todo.append(("cli", "cli:%s:%s" % (base.package, " ".join(extra)), s, True))
     cat = shapes.catalogue(tier)
     for s, _ in (cat[::5] if quick else cat):
         todo.append(("catalogue", s.package, s, True))
@@ -69,9 +86,12 @@ def run(tier, replay=None):
                                     "concat": "all group forests with <= %d groups, depth <= 3 over %s (paths that join to the same string)" % (3 if quick else 4, names.CPOOL[:5] if quick else names.CPOOL),
                                     "attr": "19 string attribute kinds x tokens %s" % (names.STRING_TOKENS_QUICK if quick else names.STRING_TOKENS),
                                     "num": "16 numeric attribute kinds x literal forms %s + ids beyond the header field type" % (names.NUMERIC_FORMS[:8] if quick else names.NUMERIC_FORMS),
+                                    "cli": "kinds + name-clash schemas compiled with --schema-name (a fresh name, `messages`, the first message's name) and / or --inject-include (plain and in a subdirectory): all of the above under the overriding name, package trait = the XML's, every generated header pulls in the injected header",
                                     "kinds / catalogue / headers": "as in C01/C17"},
                        "checks_per_accepted_schema": "every generated header compiled on its own; explicit instantiation of every view class for char / unsigned char / std::byte + by-name use of every type, enumerator, choice, message, tag; (names, concat, kinds, catalogue, headers) additionally the complete accessor driver (random access, every cursor form, by-tag, header fillers) and the traits TU (names must equal the schema's)",
                        "cells": [cxx.cell_name(c) for c in cells], "catalogue_cells": [cxx.cell_name(c) for c in cat_cells]})
+    if os.environ.get("VERIF_C07_FAMILY"):      # development aid: one family only (never used by a registered command)
+        todo = [t for t in todo if t[0] == os.environ["VERIF_C07_FAMILY"]]
     wd = cxx.workdir("c07-" + tier)
 
     def one(item):
@@ -81,7 +101,14 @@ def run(tier, replay=None):
         sb = build.SchemaBuild(s, root)
         res = {"fam": fam, "desc": desc, "pkg": s.package, "accepted": False, "fails": [], "compiles": 0}
         try:
-            ok = sb.generate()
+            ok = sb.generate(extra=getattr(s, "sbeppc_extra", ()))
+            if ok and getattr(s, "inject", None):
+                # the injected header must be seen by every generated header before anything else: it defines a macro that
+                # each stand-alone compile demands (-include of a checker is not possible per header, so the checker is the
+                # header-alone TU itself, see below)
+                ip = os.path.join(sb.inc, s.inject)
+                os.makedirs(os.path.dirname(ip), exist_ok=True)
+                open(ip, "w").write("#pragma once\n#define VERIF_INJECTED 1\n")
         except Exception as ex:     # rendering problems are ours
             res["harness"] = "generate: %r" % ex
             return res
@@ -104,6 +131,14 @@ def run(tier, replay=None):
                 res["compiles"] += 1
                 if not okc:
                     res["fails"].append(("header-alone", cn, os.path.relpath(h, sb.inc), log[-1200:]))
+                elif getattr(s, "inject", None):
+                    chk = os.path.join(root, "inj_chk.cpp")
+                    open(chk, "w").write('#include "%s"\n#ifndef VERIF_INJECTED\n#error "generated header does not include the injected header"\n#endif\n'
+                                         % os.path.relpath(h, sb.inc))
+                    okc, log = cxx.syntax(cell, chk, includes=[sb.inc], nowarn=False)
+                    res["compiles"] += 1
+                    if not okc:
+                        res["fails"].append(("inject-include-missing", cn, os.path.relpath(h, sb.inc), log[-600:]))
             tu = os.path.join(root, "inst.cpp")
             open(tu, "w").write(instantiation_tu(s, sb.top_header(), cell[1] not in ("c++11", "c++14")))
             okc, log = cxx.syntax(cell, tu, includes=[sb.inc], nowarn=False)
